@@ -66,7 +66,7 @@ LEVEL_NOTE = ("The main theorem covers every operation of the model in any order
               "recreate='never' (no recreate: outside the property) is modelled and compared exactly; SQLite CAST/DEFAULT are oracles; reflection "
               "and DDL spelling are observed, not modelled.")
 
-TYPES = ["INTEGER", "BIGINT", "TEXT", "VARCHAR(20)", "NUMERIC(10, 2)"]
+TYPES = ["INTEGER", "BIGINT", "TEXT", "VARCHAR(20)", "NUMERIC(10, 2)", "NUMERIC(10, 0)"]      # (a type argument 0)
 TMPP = "_alembic_tmp_"
 FINDINGS = {
     "byname": "C10-constraint-on-unknown-or-renamed-column-silently-dropped",
@@ -77,7 +77,7 @@ FINDINGS = {
 
 
 def sa_type(sa, tok):
-    return [sa.Integer, sa.BigInteger, sa.Text, lambda: sa.String(20), lambda: sa.Numeric(10, 2)][tok]()
+    return [sa.Integer, sa.BigInteger, sa.Text, lambda: sa.String(20), lambda: sa.Numeric(10, 2), lambda: sa.Numeric(10, 0)][tok]()
 
 
 # ----------------------------------------------------------------------------- scenarios
@@ -103,6 +103,18 @@ def fixed():
     yield s([["alter", "c", {"name": "c2"}]], mode="never", **part)                    # SQLite's RENAME COLUMN rewrites the predicate
     yield s([["drop", "c"]], mode="never", **part)
     yield s([["alter", "b", {"type": 1}]], copy_from=True, **part)
+    # boundary values of the server default: '' is a default (DEFAULT ''), not "no default"; "0"; a default that is two quotes
+    dcols = [["a", 0, True, "7"], ["b", 2, True, ""], ["c", 0, True, None]]
+    yield s([["alter", "a", {"default": ""}]], cols=dcols)                            # '7' -> ''
+    yield s([["alter", "c", {"default": ""}]], cols=dcols)                            # none -> ''
+    yield s([["alter", "c", {"default": "0"}]], cols=dcols)
+    yield s([["alter", "c", {"default": "''"}]], cols=dcols)
+    yield s([["alter", "b", {"default": None}]], cols=dcols)                          # '' -> none
+    yield s([["alter", "c", {"nullable": False}]], cols=dcols, rows=[[1, 1, "x", 1]])  # b's DEFAULT '' is not mentioned: kept
+    yield s([["add", "z", 2, False, "", None, None]], cols=dcols)                     # NOT NULL DEFAULT '': the rows get ''
+    yield s([["add", "z", 0, True, "0", None, None], ["alter", "z", {"default": ""}]], cols=dcols)
+    yield s([["add", "z", 2, True, "", None, None]], cols=dcols, mode="auto")         # ALTER TABLE ADD COLUMN ... DEFAULT ''
+    yield s([["alter", "a", {"type": 5}], ["alter", "c", {"type": 5, "default": "0"}]], cols=dcols)   # NUMERIC(10, 0)
     # insert_before near the head of the table: the left neighbour of the SECOND column is the first one
     yield s([["add", "z", 0, True, None, "a", None]])
     yield s([["add", "h", 0, True, None, "id", None], ["add", "g", 0, True, None, "a", None]])
@@ -201,7 +213,7 @@ def fixed():
 
 def rand_scenario(rnd):
     ncol = rnd.randint(2, 5)
-    cols = [["c%d" % k, rnd.randrange(5), rnd.random() < 0.8, rnd.choice([None, None, "7", "x"])] for k in range(ncol)]
+    cols = [["c%d" % k, rnd.randrange(6), rnd.random() < 0.8, rnd.choice([None, None, None, "7", "x", "", "0"])] for k in range(ncol)]
     names = [c[0] for c in cols]
     nrows = rnd.choice([0, 1, 2, 3, 4])
     rows = []
@@ -314,7 +326,7 @@ def gen_ops(rnd, scn, light=False):
                 gap_nbrs.append(("before", keys[i + 1]))
             keys.remove(k)
             side, nb = rnd.choice(gap_nbrs)
-            ops.append(["add", "z%d" % len(ops), rnd.randrange(5), True, rnd.choice([None, "7"]),
+            ops.append(["add", "z%d" % len(ops), rnd.randrange(6), True, rnd.choice([None, "7", ""]),
                         nb if side == "before" else None, nb if side == "after" else None])
             keys.append(ops[-1][1]); added.append(ops[-1][1]); curname[ops[-1][1]] = ops[-1][1]
     for _ in range(rnd.randint(1, 5)):
@@ -341,7 +353,7 @@ def gen_ops(rnd, scn, light=False):
             elif r < 0.4 and keys:
                 after = rnd.choice(keys)
             notnull = rnd.random() < 0.3
-            ops.append(["add", nm, rnd.randrange(5), not notnull, ("7" if notnull else rnd.choice([None, None, "7"])), before, after])
+            ops.append(["add", nm, rnd.randrange(6), not notnull, (rnd.choice(["7", "", "0"]) if notnull else rnd.choice([None, None, "7", ""])), before, after])
             keys.append(nm); added.append(nm); curname[nm] = nm
         elif kind == "drop" and live:
             cand = [k for k in live if k not in check_cols]
@@ -369,7 +381,7 @@ def gen_ops(rnd, scn, light=False):
             cand = [k for k in live if k not in typed and k not in uniq_cols and k not in pkcols and k not in check_cols]
             if cand:
                 k = rnd.choice(cand); typed.add(k)
-                ops.append(["alter", k, {"type": rnd.randrange(5)}])
+                ops.append(["alter", k, {"type": rnd.randrange(6)}])
         elif kind == "multi" and keys:
             # one alter_column call changing several attributes at once, as autogenerate renders it
             k = rnd.choice(keys)
@@ -378,13 +390,13 @@ def gen_ops(rnd, scn, light=False):
             if "name" in want and k not in check_cols:
                 a["name"] = k + "_m%d" % len(ops); curname[k] = a["name"]
             if "type" in want and k in live and k not in typed and k not in uniq_cols and k not in pkcols and k not in check_cols:
-                a["type"] = rnd.randrange(5); typed.add(k)
+                a["type"] = rnd.randrange(6); typed.add(k)
             if "nullable" in want:
                 a["nullable"] = True if (k in added or not nullfree(k)) else (rnd.random() < 0.5)
                 if k in pkcols:
                     a["nullable"] = False
             if "default" in want:
-                a["default"] = rnd.choice(["9", "dd"] if k in added else [None, "9", "dd"])
+                a["default"] = rnd.choice(["9", "dd", "", "0"] if k in added else [None, "9", "dd", "", "0", "''"])
             if a:
                 ops.append(["alter", k, a])
         elif kind == "nullable" and keys:
@@ -399,7 +411,7 @@ def gen_ops(rnd, scn, light=False):
                 ops.append(["alter", k, {"nullable": True}])
         elif kind == "default" and keys:
             k = rnd.choice(keys)
-            ops.append(["alter", k, {"default": rnd.choice(["9", "dd"] if k in added else [None, "9", "dd"])}])
+            ops.append(["alter", k, {"default": rnd.choice(["9", "dd", "", "0"] if k in added else [None, "9", "dd", "", "0", "''"])}])
         elif kind == "add_unique" and live:
             k = rnd.choice([x for x in live if x not in typed] or live)
             if k in typed or pkcols == [k] or k in uniq_sets:
@@ -433,7 +445,7 @@ def gen_ops(rnd, scn, light=False):
         elif kind == "weird":
             r = rnd.random()
             if r < 0.3 and keys and keys[-1] not in uniq_cols:
-                ops.append(["add", keys[-1], rnd.randrange(5), True, None, None, None])       # re-add the last column
+                ops.append(["add", keys[-1], rnd.randrange(6), True, None, None, None])       # re-add the last column
                 if keys[-1] not in added:
                     added.append(keys[-1])
             elif r < 0.5:
@@ -686,7 +698,7 @@ def run_case(scn):
                             fty = o2[2].get("type", fty)
                             if "default" in o2[2]:
                                 fdf = o2[2]["default"]
-                    c.exec_driver_sql("create temp table _orc (a INTEGER, z %s%s)" % (TYPES[fty], "" if fdf is None else " DEFAULT '%s'" % fdf))
+                    c.exec_driver_sql("create temp table _orc (a INTEGER, z %s%s)" % (TYPES[fty], "" if fdf is None else " DEFAULT '%s'" % fdf.replace("'", "''")))
                     c.exec_driver_sql("insert into _orc (a) values (1)")
                     dflts = [d for d in dflts if d[0] != fin] + [(fin, c.exec_driver_sql("select z from _orc").scalar())]
                     c.exec_driver_sql("drop table _orc")
